@@ -456,6 +456,7 @@ type concCase struct {
 	child    bool   // run in a re-exec'd child process (the case may crash the process)
 	ofail    string // "" | "err" | "panic": a lifecycle element placed AFTER the async stage whose Open fails
 	rep      int    // materialise the SAME stream value this many times (>= 1)
+	nowait   bool   // histories: start the next materialisation right after the previous terminal returned
 	cerr     bool   // pipe: the consumer returns an error (instead of nil) after its reads
 	lcx      int    // extra (no-op) lifecycle elements added on top of the source provider (WithAdditionalLifecycle)
 	bare     bool   // the source is a bare provider function (NewSimpleStream(f), no lifecycle elements: no Open, no Close)
@@ -518,6 +519,8 @@ func parseConcCase(text string) (*concCase, error) {
 			cc.child = v == "1"
 		case "ofail":
 			cc.ofail = v
+		case "nowait":
+			cc.nowait = v == "1"
 		case "cerr":
 			cc.cerr = v == "1"
 		case "lcx":
@@ -1051,7 +1054,9 @@ func concRunOnce(cc *concCase) concObs {
 		}
 		if i+1 < cc.rep {
 			// the next materialisation starts when the previous one has wound down
-			if left := concQuiesceExcept(r.ignore, time.Second, r.src.slowWait.Load); left > 0 {
+			if cc.nowait {
+				// goroutines of this materialisation may still be winding down when the next one opens
+			} else if left := concQuiesceExcept(r.ignore, time.Second, r.src.slowWait.Load); left > 0 {
 				obs.leak += left
 			}
 			obs.trace = append(obs.trace, "|")
